@@ -29,6 +29,23 @@ def set_state_fn(fn):
     _state_fn[0] = fn
 
 
+_budget = [None]
+
+
+def set_budget(payload_len):
+    """Liveness budget on chunk refills and replay-buffer reads for one run
+    (logical steps, never seconds); None switches it off."""
+    _budget[0] = None if payload_len is None else 8 * payload_len + 512
+    _char_budget[0] = None if payload_len is None else 3 * payload_len + 64
+    _delivered[0] = 0
+
+
+# characters handed to the tokenizer by chunk refills in this run: a restart
+# may deliver the payload twice, never more
+_char_budget = [None]
+_delivered = [0]
+
+
 def reset():
     PROBES.clear()
     CHUNK_SIGS.clear()
@@ -82,6 +99,13 @@ def install():
         rv = orig_readChunk(self, chunkSize)
         P = PROBES
         P["readChunk"] += 1
+        b = _budget[0]
+        if b is not None:
+            _delivered[0] += self.chunkSize
+            if P["readChunk"] > b or _delivered[0] > _char_budget[0]:
+                from .sources import SimBudgetExceeded
+                raise SimBudgetExceeded("more than %d chunk refills or %d characters delivered for this payload"
+                                        % (b, _char_budget[0]))
         bc = self._bufferedCharacter
         if bc is not None:
             if bc == "\r":
@@ -116,6 +140,10 @@ def install():
 
     def _readFromBuffer(self, bytes):
         PROBES["bufferedstream_replay"] += 1
+        b = _budget[0]
+        if b is not None and PROBES["bufferedstream_replay"] > b:
+            from .sources import SimBudgetExceeded
+            raise SimBudgetExceeded("more than %d reads served from the replay buffer" % b)
         return orig_rfb(self, bytes)
 
     def bseek(self, pos):
